@@ -86,7 +86,9 @@ CHECKS["C07"] = ("Proof: C07.wellformed_image_extracted_exactly — for every fo
                  "Spec.Dos.render (the independent writer used to make test images) only produces consistent sides (executed and fsck'd on every "
                  "image). Tie/oracle: images from an independent writer (Python twin = Lean render, incl. one 157-block chain) through real "
                  "list/extract vs model vs abstract files.", D, "7 C07")
-CHECKS["C10"] = ("Proof: C10.file_stored_in_one_place — one file offered to the injector, with all its retries on the following sides, either "
+CHECKS["C10"] = ("Proof: C10.placement_rule — a file offered while the cursor is on side cur is stored on the first side k >= cur that has enough "
+                 "free blocks and a free catalog entry, the cursor stops there; if none can take it, it is stored nowhere and the cursor ends past "
+                 "the fourth side; end_of_side_marker (cursor + 1, no side touched); C10.file_stored_in_one_place — one file offered to the injector, with all its retries on the following sides, either "
                  "leaves every catalog slot of every side as it was or appears in exactly one slot of one side that held nothing, with its whole "
                  "content (never split, never twice); the cursor never moves back and sides behind it are untouched; C10.always_completes — on a "
                  "consistent image every batch returns 0 and writes exactly one archive of four consistent sides (sources dropped after the fourth "
